@@ -52,15 +52,11 @@ StatusJson(s) == [state |-> s.state, mode_on |-> (s.mode # None),
 Has(r, f) == f \in DOMAIN r
 ResJson(r) == [ok |-> r.ok, err |-> r.err,
                accepted |-> (IF Has(r, "accepted") THEN r.accepted ELSE FALSE),
-               id |-> (IF Has(r, "id") THEN r.id ELSE ""),
                gen |-> (IF Has(r, "gen") THEN r.gen ELSE 0),
                cycles |-> (IF Has(r, "cycles") THEN r.cycles ELSE 0),
                commits |-> (IF Has(r, "commits") THEN r.commits ELSE 0),
-               run |-> (IF Has(r, "run") THEN r.run ELSE 0),
-               has_status |-> (r.status # None),
-               status |-> (IF r.status = None THEN StatusJson(InitStatus) ELSE StatusJson(r.status))]
-StateJson == [p |-> pending, c |-> committed, wt |-> wtick, gt |-> gtick, elig |-> elig, hf |-> headFault,
-              rf |-> rtFault, nh |-> Len(hist), next_run |-> nextRun, hung |-> hung, st |-> StatusJson(st)]
+               has_status |-> (r.status # None)]          \* the status a response carries is the kernel's status after the call (s.st)
+StateJson == [wt |-> wtick, gt |-> gtick, nh |-> Len(hist), st |-> StatusJson(st)]
 HistJson == [k \in 1..Len(hist) |-> [b |-> hist[k].batch, gt |-> hist[k].gt, wt |-> hist[k].wt]]
 
 OpDispatch(x) == [a |-> "dispatch", x |-> x]
@@ -103,7 +99,7 @@ MC_View == <<core, usedRuns, commitCount, hung>>
 AllLaws == /\ TypeOK /\ TicksAdvanceOnlyByCycles /\ HistoryAppendOnly /\ AtMostOnce /\ LedgerIsLog
            /\ DuplicateChangesNothing /\ AcceptedIsNew /\ RunCommitsPendingSet /\ RunIdsFresh
            /\ StartCompletionConsistent /\ StatusFresh /\ RefusedChangesNothing /\ FailedRunCommitsNothing
-           /\ DormantNeverCommitted /\ ReadChangesNothing
+           /\ DormantNeverCommitted /\ ReadChangesNothing /\ ResponseCarriesStatus
 Laws == [][AllLaws']_allvars
 
 \* ---- beh mode: export maximal behaviours -----------------------------------------------------------
@@ -120,4 +116,9 @@ Reach_AlreadyActive  == ~(last.act = "start" /\ ~last.ok /\ last.err = "INVALID_
 Reach_EngineError    == ~(last.act = "start" /\ last.err = "ENGINE_ERROR" /\ prev.st.run # None)
 Reach_Hung           == ~hung
 Reach_TwoCommits     == ~(Len(hist) >= 2)
+\* the same for transitions into states whose view was seen before (self-loops under VIEW): as action properties
+ReachA_Dup           == [][Reach_Dup']_allvars
+ReachA_AlreadyActive == [][Reach_AlreadyActive']_allvars
+ReachA_Refused       == [][~(~last.ok /\ last.err \in {"INVALID_CONTROL", "INVALID_INTENT", "FORBIDDEN_CONTROL_INTENT"})']_allvars
+ReachA_Read          == [][~(last.act = "read")']_allvars
 =============================================================================
